@@ -9,6 +9,7 @@ package c11
 // transferWrite machinery. Two real processes, real SIGHUP and the exit of the old process are NOT exhibited.
 
 import (
+	"bytes"
 	"fmt"
 	"net"
 	"os"
@@ -77,7 +78,7 @@ func upChild(args []string) {
 	time.AfterFunc(40*time.Second, func() { upOut("x:timeout"); os.Exit(98) })
 	initEnv()
 	types.DefaultConnReadTimeout = 100 * time.Millisecond // the read loop looks at the stop channel once per read timeout
-	network.SetTransferTimeout(150 * time.Millisecond)
+	network.SetTransferTimeout(250 * time.Millisecond) // transferable connections move after 250-500 ms; the others are given up after 10x
 	running := func(m *mosnInst) { m.waitRunning(network.VerifListenerState, int(network.ListenerRunning)) }
 
 	oldB := newMosn("bolt", nil)
@@ -211,11 +212,20 @@ func upChild(args []string) {
 	upOut(fmt.Sprintf("r:adoptedh1=%d", adoptedH))
 
 	// ---- after the hand-over
+	// (first the connection that stays with the old server: the old server gives such connections up 10 x TransferTimeout
+	// after StopConnection, long after it has exited in a real upgrade)
+	h1res := "na"
+	if h1c != nil {
+		h1res = okTok(quick(h1c))
+	}
 	_, err = hc.conn().Write(hfull[u.half:])
 	if err == nil {
 		err = hc.readResp(hp, 5*time.Second)
 	}
 	upOut("r:half=" + okTok(err))
+	if err != nil {
+		upOut("x:half-error " + err.Error())
+	}
 	if wc != nil {
 		close(wp.release)
 		upOut("r:wait=" + okTok(wc.readResp(wp, 5*time.Second)))
@@ -232,11 +242,7 @@ func upChild(args []string) {
 		res = "na"
 	}
 	upOut("r:idle=" + res)
-	if h1c != nil {
-		upOut("r:h1=" + okTok(quick(h1c)))
-	} else {
-		upOut("r:h1=na")
-	}
+	upOut("r:h1=" + h1res)
 	upOut("r:new=" + probeNew("bolt", oldB.addr))
 	// which server worked: requests begun on each listener (the waiting request began on the old one)
 	upOut(fmt.Sprintf("r:newreq=%d", metrics.NewListenerStats(newB.name).Counter(metrics.DownstreamRequestTotal).Count()))
@@ -245,8 +251,15 @@ func upChild(args []string) {
 
 func runUP(c *hx.Ctx, u upCase) {
 	cmd := exec.Command(os.Args[0], "C11", "upchild", fmt.Sprint(u.half), fmt.Sprint(u.idle), fmt.Sprint(u.wait), fmt.Sprint(u.h1))
-	cmd.Stderr = nil
+	var elog bytes.Buffer
+	if os.Getenv("C11_UPLOG") != "" {
+		cmd.Stderr = &elog
+	}
 	out, err := cmd.Output()
+	out = append(out, elog.Bytes()...)
+	if d := os.Getenv("C11_UPLOG"); d != "" && strings.Contains(string(out), "=fail") {
+		os.WriteFile(fmt.Sprintf("%s/up_%d_%d.log", d, os.Getpid(), time.Now().UnixNano()), out, 0o644)
+	}
 	code := 0
 	if err != nil {
 		if ee, ok := err.(*exec.ExitError); ok {
@@ -280,7 +293,9 @@ func genUP(c *hx.Ctx, i int) upCase {
 	case 2:
 		u.half = frame - 1 - r.Intn(upFrameContent-1) // inside the content
 	default:
-		u.half = r.Pick([]int{1, boltReqHdr - 1, boltReqHdr, boltReqHdr + 1, frame - 1})
+		// boundaries: around the fixed header, the last byte, and the size classes of the byte pool (a buffer
+		// that is exactly full when it is handed over)
+		u.half = r.Pick([]int{1, boltReqHdr - 1, boltReqHdr, boltReqHdr + 1, frame - 1, 63, 64, 65, 128, 256, 512})
 	}
 	return u
 }
